@@ -284,6 +284,16 @@ class PreParser:
         code : str
             The vyper source code to be re-formatted.
         """
+        # python treats a form feed in the leading whitespace of a line as
+        # resetting the column count; the tokenize/untokenize round trip does
+        # not preserve the columns of such a line, which the position
+        # bookkeeping below relies on
+        m = re.search(r"^[ \t\x0b]*\x0c", code, flags=re.MULTILINE)
+        if m is not None:
+            lineno = code.count("\n", 0, m.start()) + 1
+            raise SyntaxException(
+                "form feed characters are not allowed in indentation", code, lineno, 0
+            )
         try:
             self._parse(code)
         except TokenError as e:
